@@ -14,7 +14,9 @@
 package socket
 
 import (
+	"bytes"
 	"hash/crc32"
+	"io"
 	"net"
 	"time"
 
@@ -57,6 +59,23 @@ func parseHeader(header [12]byte) (length int, index int, ok bool) {
 		index &= 0x7fffffff
 	}
 	return
+}
+
+// readBody reads a body of the announced length. Only bodies up to 1 MiB are allocated in advance:
+// the length comes from the peer, and a header is cheap to forge.
+func readBody(r io.Reader, length int) ([]byte, error) {
+	const preallocated = 1 << 20
+	if length <= preallocated {
+		body := make([]byte, length)
+		_, err := io.ReadAtLeast(r, body, length)
+		return body, err
+	}
+	var buf bytes.Buffer
+	buf.Grow(preallocated)
+	if _, err := io.CopyN(&buf, r, int64(length)); err != nil {
+		return nil, err
+	}
+	return buf.Bytes(), nil
 }
 
 func nextTempDelay(err error, onError func(net.Conn, error), tempDelay time.Duration) time.Duration {
